@@ -44,11 +44,13 @@ CONSTANTS
     COrder,       \* only graphs declarable in C in namespace order
     Orders,       \* permutations of 1..N explored
     KnownShapes,  \* shapes of Closed violations that are recorded findings (see NoUnknownViolation)
-    ExportViol, ExportOk     \* print every k-th violating / closed final case for the S->C replay (0 = none)
+    ExportViol, ExportOk     \* S->C export: > 0 prints the violating final cases without padding / every k-th closed one
 
-VARIABLES pc, kinds, order, nodes, built, st, gir
+VARIABLES pc, kinds, order, nodes, built, st, gir,
+          rej      \* Rejections(gir), evaluated once when gir is written; shapes of cases that no C header
+                   \* can declare in namespace order carry the suffix @use-before-declaration
 
-vars == <<pc, kinds, order, nodes, built, st, gir>>
+vars == <<pc, kinds, order, nodes, built, st, gir, rej>>
 Nodes == 1..N
 
 TypeDefining(k) == k \in {"alias", "callback", "record", "enum", "class"}
@@ -56,7 +58,7 @@ Pos(o, n) == CHOOSE i \in DOMAIN o : o[i] = n
 EmptyGir == [ns |-> "", avail |-> <<>>, partial |-> <<>>, defs |-> <<>>, uses |-> <<>>, idx |-> <<>>, pairs |-> <<>>]
 
 Init ==
-    /\ pc = "build" /\ built = 0 /\ nodes = <<>> /\ st = <<>> /\ gir = EmptyGir
+    /\ pc = "build" /\ built = 0 /\ nodes = <<>> /\ st = <<>> /\ gir = EmptyGir /\ rej = {}
     /\ kinds \in [Nodes -> Kinds]
     /\ Cardinality({n \in Nodes : kinds[n] = "function"}) <= MaxFunctions
     /\ order \in Orders
@@ -117,7 +119,7 @@ Build ==
     /\ pc = "build" /\ built < N
     /\ \E r \in NodeRecs(built + 1) : nodes' = Append(nodes, r)
     /\ built' = built + 1
-    /\ UNCHANGED <<pc, kinds, order, st, gir>>
+    /\ UNCHANGED <<pc, kinds, order, st, gir, rej>>
 
 \* typedef chains are acyclic in C; resolve_aliases would not terminate otherwise
 RECURSIVE AliasAcyclic(_, _, _)
@@ -127,12 +129,18 @@ AliasAcyclic(g, n, fuel) ==
 
 Case == [nodes |-> nodes, order |-> order]
 
+\* can a C header declare the nodes in namespace order ?  (typedef names are declared before use)
+CDeclarable(g, o) ==
+    \A n \in DOMAIN g : (g[n].kind \in {"alias", "callback", "function"} /\ g[n].site.tk = "node"
+                            /\ g[g[n].site.tgt].kind # "class") => Pos(o, g[n].site.tgt) < Pos(o, n)
+OrderTag == IF CDeclarable(nodes, order) THEN "" ELSE "@use-before-declaration"
+
 StartWalks ==
     /\ pc = "build" /\ built = N
     /\ \A n \in Nodes : AliasAcyclic(nodes, n, N)
     /\ IF Stepwise THEN st' = InitSt(nodes) /\ pc' = WalkNames[1]
                    ELSE st' = Run(Case) /\ pc' = "write"        \* IntrospectablePass.validate() at once
-    /\ UNCHANGED <<kinds, order, nodes, built, gir>>
+    /\ UNCHANGED <<kinds, order, nodes, built, gir, rej>>
 
 ---------------------------------------------------------------------------
 \* one action per namespace.walk(...) of IntrospectablePass.validate
@@ -143,7 +151,7 @@ WalkStep(w) ==
     /\ pc = w
     /\ st' = Walk(w, Case, st)
     /\ pc' = NextPc(w)
-    /\ UNCHANGED <<kinds, order, nodes, built, gir>>
+    /\ UNCHANGED <<kinds, order, nodes, built, gir, rej>>
 
 AliasAnalysis     == WalkStep("alias")
 SkipPropagation   == WalkStep("skips")
@@ -166,15 +174,25 @@ CodeFrom(g, n) ==
           + (IF g[n].site.role = "return" THEN 19 ELSE 0) + TkIndex(g[n].site.tk)) % 1000003
 Code(g) == CodeFrom(g, Len(g))
 
+\* export filter: a violating case is printed when it has no padding, i.e. every node that the rejected
+\* owners do not (transitively) refer to is a plain node (fundamental type, no flags)
+Tgts(g, n) == {s.tgt : s \in {x \in {g[n].site, g[n].psite, g[n].ssite} : x.tk = "node"}}
+RECURSIVE Reach(_, _, _)
+Reach(g, S, fuel) == IF fuel = 0 THEN S ELSE Reach(g, S \cup UNION {Tgts(g, n) : n \in S}, fuel - 1)
+Owners(R) == {n \in Nodes : \E r \in R : r[3] \in {QN[n], FieldId[n], MethId[n], VfId[n], SigId[n], PropId[n]}}
+Plain(r) == /\ ~r.nskip /\ ~r.moved /\ r.site.tk = "fund" /\ r.site.cont = "none" /\ ~r.site.vskip /\ r.site.role # "return"
+            /\ r.psite.tk = "fund" /\ r.ssite.tk = "fund"
+Tight(g, R) == \A n \in Nodes \ Reach(g, Owners(R), N) : Plain(g[n])
+
 Write ==
     /\ pc = "write"
     /\ gir' = GirOf(Case, st)
+    /\ rej' = LET tag == OrderTag IN {<<r[1], r[2] \o tag, r[3]>> : r \in Rejections(gir')}
     /\ pc' = "done"
-    /\ LET rej == Rejections(gir')  code == Code(nodes) IN
-       IF rej # {} THEN (ExportViol > 0 /\ code % ExportViol = 0) =>
-                           PrintT(<<"C05CASE", "viol", {r[2] : r \in rej}, Case, Marks(Case, st)>>)
-       ELSE (ExportOk > 0 /\ code % ExportOk = 0) =>
-                           PrintT(<<"C05CASE", "ok", {}, Case, Marks(Case, st)>>)
+    /\ IF rej' # {} THEN (ExportViol > 0 /\ Tight(nodes, rej')) =>
+                           PrintT(<<"C05CASE", "viol", {r[2] : r \in rej'}, Case, CDeclarable(nodes, order)>>)
+       ELSE (ExportOk > 0 /\ Code(nodes) % ExportOk = 0) =>
+                           PrintT(<<"C05CASE", "ok", {}, Case, CDeclarable(nodes, order)>>)
     /\ UNCHANGED <<kinds, order, nodes, built, st>>
 
 Next == Build \/ StartWalks \/ AliasAnalysis \/ SkipPropagation \/ AnalyzeNode \/ CallableAnalysis1
@@ -184,13 +202,13 @@ Spec == Init /\ [][Next]_vars
 
 ---------------------------------------------------------------------------
 \* implementation layer => property layer
-ClosedAtDone == pc = "done" => Closed(gir)
+ClosedAtDone == pc = "done" => rej = {}        \* rej = Rejections(gir): Closed(gir)
 
 \* ... modulo the shapes recorded as findings: every other violation is a new candidate
-NoUnknownViolation == pc = "done" => \A r \in Rejections(gir) : r[2] \in KnownShapes
+NoUnknownViolation == pc = "done" => \A r \in rej : r[2] \in KnownShapes
 
 \* witness search (KnownShapes = {s}): "no final state violates Closed with shape s"; violated = a witness exists
-NoWitness == pc = "done" => \A r \in Rejections(gir) : r[2] \notin KnownShapes
+NoWitness == pc = "done" => \A r \in rej : r[2] \notin KnownShapes
 
 \* sanity of the model itself: flags only ever go down; a marked node stays marked
 MonotoneAct == pc \in Rng(WalkNames) =>
